@@ -71,8 +71,9 @@ Definition opt_rel {A : Type} (R : A -> A -> Prop) (x y : option A) : Prop :=
   end.
 
 (** two states that no getter can tell apart, now or after undoing journal entries.
-    Not compared: the transaction context (thash/txIndex are not journalled by design), journal, dirties, revisions, nextRevisionId, pending/dirty sets, crash flag,
-    the exact shape of the storage caches, dirtyCode. *)
+    Not compared: the transaction context (thash/txIndex are not journalled by design), journal, dirties, revisions, nextRevisionId, pending/dirty sets,
+    the exact shape of the storage caches, dirtyCode. (The crash flag IS compared: two equivalent
+    states crash on the same reverts.) *)
 Record eqv (s1 s2 : state) : Prop := {
   ev_trie : st_trie s1 = st_trie s2;
   ev_destruct : forall a, st_destruct s1 a = st_destruct s2 a;
@@ -83,7 +84,8 @@ Record eqv (s1 s2 : state) : Prop := {
   ev_preimages : forall h, st_preimages s1 h = st_preimages s2 h;
   ev_aladdrs : forall a, st_aladdrs s1 a = st_aladdrs s2 a;
   ev_alslots : st_alslots s1 = st_alslots s2;
-  ev_transient : forall a k, st_transient s1 a k = st_transient s2 a k }.
+  ev_transient : forall a k, st_transient s1 a k = st_transient s2 a k;
+  ev_crashed : st_crashed s1 = st_crashed s2 }.
 
 Lemma obj_eqv_refl : forall d o, obj_eqv d o o.
 Proof. intros; constructor; auto. Qed.
@@ -105,18 +107,18 @@ Proof. intro s; constructor; auto. intro a; apply opt_rel_refl; apply obj_eqv_re
 
 Lemma eqv_sym : forall s1 s2, eqv s1 s2 -> eqv s2 s1.
 Proof.
-  intros s1 s2 [? Hd Ho ? ? ? ? ? ? ?]; constructor; auto.
+  intros s1 s2 [? Hd Ho ? ? ? ? ? ? ? ?]; constructor; auto.
   intro a; specialize (Ho a); rewrite <- Hd.
   destruct (peek s1 a), (peek s2 a); cbn in *; auto using obj_eqv_sym.
 Qed.
 
 Lemma eqv_trans : forall s1 s2 s3, eqv s1 s2 -> eqv s2 s3 -> eqv s1 s3.
 Proof.
-  intros s1 s2 s3 [? Hd1 Ho1 ? Hl1 ? Hp1 Ha1 ? Ht1] [? Hd2 Ho2 ? Hl2 ? Hp2 Ha2 ? Ht2].
+  intros s1 s2 s3 [? Hd1 Ho1 ? Hl1 ? Hp1 Ha1 ? Ht1 ?] [? Hd2 Ho2 ? Hl2 ? Hp2 Ha2 ? Ht2 ?].
   constructor;
     [ congruence | intro a; rewrite Hd1; apply Hd2 | | congruence
     | intro t; rewrite Hl1; apply Hl2 | congruence | intro h; rewrite Hp1; apply Hp2
-    | intro a; rewrite Ha1; apply Ha2 | congruence | intros a k; rewrite Ht1; apply Ht2 ].
+    | intro a; rewrite Ha1; apply Ha2 | congruence | intros a k; rewrite Ht1; apply Ht2 | congruence ].
   intro a; specialize (Ho1 a); specialize (Ho2 a); rewrite <- Hd1 in Ho2.
   destruct (peek s1 a), (peek s2 a), (peek s3 a); cbn in *; try tauto; eauto using obj_eqv_trans.
 Qed.
@@ -224,9 +226,10 @@ Proof. intros s s' [H _]; rewrite H; unfold glob, ctl; ss; auto. Qed.
 Lemma eqv_frame : forall s1 s2 s1' s2',
   eqv s1 s2 -> glob s1' = glob s1 -> glob s2' = glob s2 ->
   (forall x, opt_rel (obj_eqv (st_destruct s1 x)) (peek s1' x) (peek s2' x)) ->
+  st_crashed s1' = st_crashed s2' ->
   eqv s1' s2'.
 Proof.
-  intros s1 s2 s1' s2' [? ? ? ? ? ? ? ? ? ?] G1 G2 Hp. unglob G1. unglob G2.
+  intros s1 s2 s1' s2' [? ? ? ? ? ? ? ? ? ? ?] G1 G2 Hp Hc. unglob G1. unglob G2.
   constructor; try congruence.
   all: try (intros; congruence).
   intro a. replace (st_destruct s1' a) with (st_destruct s1 a) by congruence. apply Hp.
@@ -264,6 +267,18 @@ Proof.
     { intro s0; destruct b; unfold glob, ctl, peek; ss; auto. }
     destruct (X s1) as (G' & C' & P'). repeat split; try congruence.
     intro x; rewrite P', Hp. eqb x a; reflexivity.
+Qed.
+
+Lemma with_live_crashed : forall s a f b,
+  st_crashed (with_live s a f b) =
+  match live s a with Some _ => st_crashed s | None => if b then true else st_crashed s end.
+Proof.
+  intros s a f b; unfold with_live.
+  pose proof (get_obj_res s a) as Hr. pose proof (get_obj_state s a) as Hs.
+  pose proof (get_deleted_state s a) as Hd.
+  destruct (get_obj s a) as [s1 r]; ss; subst r; rewrite <- Hs in Hd.
+  destruct (only_objs_glob _ _ Hd) as (_ & _ & C).
+  destruct (live s a); [ss; exact C | destruct b; ss; auto].
 Qed.
 
 (** ---------------------------------------------------------------- getters respect eqv *)
@@ -352,28 +367,30 @@ Lemma with_live_eqv : forall s1 s2 a f b,
 Proof.
   intros s1 s2 a f b H Hf.
   destruct (with_live_spec s1 a f b) as (G1 & _ & P1). destruct (with_live_spec s2 a f b) as (G2 & _ & P2).
+  pose proof (live_eqv _ _ a H) as L.
   eapply eqv_frame; eauto.
-  intro x; rewrite P1, P2. eqb x a.
-  - pose proof (live_eqv _ _ a H) as L.
-    destruct (live s1 a) as [o1|], (live s2 a) as [o2|]; cbn in L |- *; try tauto; auto.
-    apply (ev_objs _ _ H).
-  - apply (ev_objs _ _ H).
+  - intro x; rewrite P1, P2. eqb x a.
+    + destruct (live s1 a) as [o1|], (live s2 a) as [o2|]; cbn in L |- *; try tauto; auto.
+      apply (ev_objs _ _ H).
+    + apply (ev_objs _ _ H).
+  - rewrite !with_live_crashed, (ev_crashed _ _ H).
+    destruct (live s1 a) as [o1|], (live s2 a) as [o2|]; cbn in L; try tauto; reflexivity.
 Qed.
 
 Lemma undo_eqv : forall e s1 s2, eqv s1 s2 -> eqv (undo e s1) (undo e s2).
 Proof.
   intros e s1 s2 H; destruct e; unfold undo.
   - (* createObject *)
-    eapply eqv_frame; eauto; try reflexivity.
+    eapply eqv_frame; eauto; try reflexivity; [|ss; apply (ev_crashed _ _ H)].
     intro x; unfold peek; ss; unfold fdel. eqb x a.
     + rewrite (ev_trie _ _ H). apply opt_rel_refl, obj_eqv_refl.
     + apply (ev_objs _ _ H).
   - (* resetObject *)
     assert (X : eqv (put_obj s1 a prev) (put_obj s2 a prev)).
-    { eapply eqv_frame; eauto; try reflexivity.
+    { eapply eqv_frame; eauto; try reflexivity; [|ss; apply (ev_crashed _ _ H)].
       intro x; rewrite !peek_put. eqb x a; [cbn; apply obj_eqv_refl | apply (ev_objs _ _ H)]. }
     destruct prevdestruct; [exact X|].
-    destruct X as [? Hd Ho ? ? ? ? ? ? ?]. constructor; ss; auto.
+    destruct X as [? Hd Ho ? ? ? ? ? ? ? ?]. constructor; ss; auto.
     + intro x; unfold tupd. destruct (N.eqb x a); auto.
     + intro x; specialize (Ho x). unfold peek in *; ss. unfold tupd, fupd in *.
       eqb x a; [cbn; apply obj_eqv_refl | exact Ho].
@@ -389,12 +406,12 @@ Proof.
     { intros s s' E; rewrite (ev_logsize _ _ E); destruct E; constructor; ss; auto. }
     apply X. rewrite (ev_logs _ _ H). destruct (st_logs s2 txhash).
     + destruct H; constructor; ss; auto.
-    + destruct H as [? ? ? ? Hl ? ? ? ? ?]; constructor; ss; auto.
+    + destruct H as [? ? ? ? Hl ? ? ? ? ? ?]; constructor; ss; auto.
       intro t; unfold tupd. destruct (N.eqb t txhash); auto.
-  - destruct H as [? ? ? ? ? ? Hp ? ? ?]; constructor; ss; auto.
+  - destruct H as [? ? ? ? ? ? Hp ? ? ? ?]; constructor; ss; auto.
     intro h'; unfold fdel. destruct (N.eqb h' h); auto.
   - exact H.
-  - destruct H as [? ? ? ? ? ? ? Ha ? ?]; constructor; ss; auto.
+  - destruct H as [? ? ? ? ? ? ? Ha ? ? ?]; constructor; ss; auto.
     intro x; unfold fdel. destruct (N.eqb x a); auto.
   - (* access-list slot *)
     unfold delete_slot_al. rewrite (ev_aladdrs _ _ H), (ev_alslots _ _ H).
@@ -403,10 +420,10 @@ Proof.
     destruct (st_aladdrs s2 a) as [[idx|]|]; auto.
     destruct (nth_error (st_alslots s2) idx); auto.
     destruct (remove_n k l).
-    + destruct H as [? ? ? ? ? ? ? Ha Hs ?]; constructor; ss; auto; try congruence.
+    + destruct H as [? ? ? ? ? ? ? Ha Hs ? ?]; constructor; ss; auto; try congruence.
       intro x; unfold fupd. destruct (N.eqb x a); auto.
-    + destruct H as [? ? ? ? ? ? ? Ha Hs ?]; constructor; ss; auto; try congruence.
-  - destruct H as [? ? ? ? ? ? ? ? ? Ht]; constructor; ss; auto.
+    + destruct H as [? ? ? ? ? ? ? Ha Hs ? ?]; constructor; ss; auto; try congruence.
+  - destruct H as [? ? ? ? ? ? ? ? ? Ht ?]; constructor; ss; auto.
     intros x y. destruct (N.eqb x a); auto. unfold tupd. destruct (N.eqb y k); auto.
 Qed.
 
